@@ -44,6 +44,11 @@ def run(v, tier, seed, replay):
     v.cov["design_counterexample_without_drain_at_thread_exit"] = ("TLC: %s violated at depth %d" % (r0.violated, r0.depth)) if r0.violated else "NOT FOUND"
     if not r0.violated:
         raise Infra("vacuity: the specification without draining no longer violates NoBlockInDeadCache")
+    if tier == "thorough":
+        # unbounded: the conjunction of the requirements (with an auxiliary clause) is an inductive invariant of the typed
+        # transcription ThreadsInd (Apalache; 3 threads, 4 blocks, cache capacity 2, 3 scratch objects, any number of steps)
+        vlib.apalache_inductive("ThreadsInd")
+    v.cov["inductive_invariant_apalache"] = "Init => IndInv and IndInv /\\ Next => IndInv' (ThreadsInd.tla: RaceFree, HeapSoundT, NoBlockInDeadCache, ScratchPerThread + Aux), unbounded in the number of steps"
     exe = vlib.build_harness("threads_drive", "plain")
     exe_tsan = vlib.build_harness("threads_drive", "tsan", extra_flags=["-DVERIF_NO_LEDGER"])
     plans = [(2, 4), (4, 4)] if tier == "quick" else [(2, 6), (3, 6), (4, 6), (6, 5), (8, 5)]
